@@ -409,6 +409,84 @@ def malformed_stream(ctx, base, worlds):
                            'batch_world': jsonable_world(world), 'query': query, 'parent': list(parent) if parent else None})
 
 
+# ------------------------------------------------------------------ genes_at_a_time = 0: OBSERVED, not a violation
+K0_WAIT_S = 2.0
+
+
+def _k0_child(world, tree, ref, parent, n_per, conn):
+    """Runs in a forked child: _run_selection(genes_at_a_time=0) on the behemoth array of one parent."""
+    from cell_type_mapper.marker_selection.marker_array import MarkerGeneArray
+    from cell_type_mapper.marker_selection.selection import _get_taxonomy_idx, _run_selection
+    from cell_type_mapper.marker_selection.utils import create_utility_array
+    try:
+        with warnings.catch_warnings():
+            warnings.simplefilter('ignore')
+            arr = MarkerGeneArray.from_cache_path(cache_path=ref, query_gene_names=list(world['query']))
+            idx = _get_taxonomy_idx(taxonomy_tree=tree, parent_node=parent, marker_gene_array=arr)
+            ua, mc = create_utility_array(marker_gene_array=arr, gb_size=10, taxonomy_mask=idx)
+            conn.send('entered')
+            res, _ = _run_selection(marker_gene_array=arr, utility_array=ua, marker_census=mc, taxonomy_idx_array=idx,
+                                    n_per_utility=n_per, parent_node=parent, genes_at_a_time=0)
+        conn.send(['returned', [str(g) for g in res]])
+    except BaseException as e:           # noqa: the child reports whatever happened
+        conn.send(['raised', f'{exc_class(e)}: {e}'[:200]])
+
+
+def k0_observed(ctx, base, worlds):
+    """genes_at_a_time = 0 is accepted by the schema (schemas/query_marker_finder.py: a plain Int, default 1) and is
+    OUTSIDE the quantifier of C12 (the theorems say 1 <= k; the model gives WKOutOfFuel: Props/C12.v ex_excluded_k0).
+    What the real _run_selection does with it is observed once per run, on the first generated table and parent whose
+    k = 1 run enters the loop (at least one gene popped by `while True`): a forked child calls _run_selection with
+    genes_at_a_time = 0 and is killed if it has not come back after K0_WAIT_S seconds.  The outcome is published in
+    the distribution batch_k0_observed; it is never a violation.  Uses no random number."""
+    import multiprocessing
+    for world, tree, ref in worlds[:20]:
+        for parent in [p for p in tree.all_parents if tree.leaves_to_compare(p)]:
+            o1 = run_case(world, tree, ref, parent, True, 1)
+            if o1.get('outcome') != ['done'] or sum(len(b) for b in o1.get('batches', [])) < 1:
+                continue
+            rn = base.Renaming(world)
+            th = ctx.model([(1203, [rn.refmarkers(world), [rn.gene[g] for g in world['query']], rn.tree_sx(world['tree']),
+                                    rn.parent(parent), True])])[0]
+            model = 'model-not-run'
+            if th[0] == 0:
+                g0, g1 = ctx.model([(1251, [len(th[1][0]), th[1][1], th[1][2], o1['n_per'], 0]),
+                                    (1251, [len(th[1][0]), th[1][1], th[1][2], o1['n_per'], 1])])
+                model = ('model:out-of-fuel' if g0[0] != 0 else 'model:break') + \
+                        ('/k=1:break' if g1[0] == 0 else '/k=1:no-break')
+            mp = multiprocessing.get_context('fork')
+            rd, wr = mp.Pipe(duplex=False)
+            child = mp.Process(target=_k0_child, args=(world, tree, ref, parent, o1['n_per'], wr))
+            with base.quiet_stdout():
+                child.start()
+            wr.close()
+            child.join(K0_WAIT_S)
+            spinning = child.is_alive()
+            if spinning:
+                child.kill()
+                child.join()
+            msgs = []
+            try:
+                while rd.poll(0):
+                    msgs.append(rd.recv())
+            except EOFError:
+                pass
+            rd.close()
+            if spinning and 'entered' in msgs:
+                real = f'real:still-in-_run_selection-after-{K0_WAIT_S}s(killed)'
+            elif msgs and isinstance(msgs[-1], list):
+                real = f'real:{msgs[-1][0]}'
+            else:
+                real = 'real:no-report'
+            ctx.dist('batch_k0_observed', f'{real}; {model}; k=1 on the same input: break after '
+                                          f'{len(o1["batches"])} passes of the loop')
+            ctx.extra['batch_k0_observed_input'] = {'parent': str(parent), 'n_per_utility': o1['n_per'],
+                                                    'by_pair_tables': o1.get('thin_pairs'), 'k1_batches': o1['batches']}
+            return
+    ctx.dist('batch_k0_observed', 'no table of the first 20 enters the loop')
+
+
+
 def picker(rng, per_world):
     """Per table `per_world` draws of (parent with pairs, pair order).  Each is first run with k = 1 (a case of its
     own); if the loop then chooses at least two genes, two values of k from KS follow on the same parent and
@@ -438,8 +516,11 @@ def run_part(ctx):
     ctx.rule += ('; part batch (genes_at_a_time in {1,2,3,5,17}): same generator; per table 2 draws of (parent with pairs, pair '
                  'order), each run with k = 1 and - if the loop chooses >= 2 genes - with two values of k; non-trivial = k >= 2, >= 2 pairs, >= 2 iterations of the loop, no unexpected exception')
     ctx.assumptions += [
-        'part batch: genes_at_a_time is an integer >= 1 (0 or a negative value makes `while True` spin without choosing a '
-        'gene; not generated); its values are {1, 2, 3, 5, 17}',
+        'part batch: genes_at_a_time is an integer >= 1; its values are {1, 2, 3, 5, 17}.  genes_at_a_time = 0 is accepted by '
+        'the schema (argschema Int, default 1, no validator) and makes the real `while True` of _run_selection spin for ever '
+        'without choosing a gene (model: WKOutOfFuel; theorems: 1 <= k).  It is outside the quantifier of C12 and is not '
+        'generated; it is OBSERVED once per run in a forked child that is killed after 2 s (distribution batch_k0_observed, '
+        'extra batch_k0_observed_input) and is never a violation',
         'part batch: the predicate evaluated on the observed lists is the full spec_c12 for every genes_at_a_time (no '
         'duplicates, in the query, marker of a pair of the parent, coverage); F23/F24/F25 are repaired (kind "fixed"): a useless '
         'gene, IndexError or RuntimeError("chose gene twice") is a violation with its input; no table is excluded',
@@ -453,6 +534,8 @@ def run_part(ctx):
         worlds, d = make_worlds(ctx, base, m, f'bt_{done}')
         batch_level(ctx, base, worlds, picker(ctx.rng, 2))
         malformed_stream(ctx, base, worlds[:max(1, m // 6)])
+        if done == 0:
+            k0_observed(ctx, base, worlds)       # after the generated cases of the chunk; draws no random number
         base.cleanup(d)
         done += m
     ctx.extra['batch_part_wall_s'] = round(time.time() - t0, 1)
